@@ -142,6 +142,15 @@ def evaluate(ctx, res, progs, vio_name, tag, sig_prefix, what):
         stats(res, p)
         bad = [e for ob in p['obs'] for c in ob for e in c['trace'] if ev_term(e) is None]
         ndel = sum(1 for o in p['ops'] if o['k'] == 'deliver')
+        seen_names = set(); dupbad = None
+        for o in p['ops']:
+            if o['k'] == 'addhandler':
+                if bool(o.get('dup')) != (o['h']['name'] in seen_names):
+                    dupbad = o['h']['name']
+                seen_names.add(o['h']['name'])
+        if dupbad is not None:
+            res.violations.append(dict(signature=sig_prefix + '/duplicate-handler-name', what='AddHandler with handler name %r: a DuplicateHandlerNameError panic is expected exactly for a name that was added before' % dupbad, case=describe(p)))
+            continue
         if p['anomaly'] or bad or ndel != len(p['obs']):
             res.violations.append(dict(signature=sig_prefix + '/anomaly', what='the router did not handle a delivered message as any handler should: %s' % (p['anomaly'] or bad)[:3], case=describe(p)))
             continue
